@@ -62,6 +62,7 @@ RULE = ("a collection of history files (or SQLite rows) + a limit (n, unit) + fo
         "unlocked, a stale-locked file or a corrupt member is present; SQLite: 0 < N < rows; "
         "distinct = hash of (collection, resolved limit, force)")
 
+HANG_S = 30                  # a GC pass costs ~2 ms; 30 s means it will never return
 NOW = 1_700_000_000.0
 BOOT_AGE = 1_000_000.0
 BOOT = NOW - BOOT_AGE
@@ -96,8 +97,11 @@ class _Clock:
         cur = threading.current_thread()
         for t in threading.enumerate():
             if t is not cur and t.daemon and type(t).__name__.endswith("HistoryGC"):
-                t.join(min(s, 0.05))
-                return
+                try:
+                    t.join(min(s, 0.05))
+                    return
+                except RuntimeError:      # not started yet
+                    break
         _real_time.sleep(min(s, 0.0002))
 
     def __getattr__(self, name):
@@ -467,7 +471,7 @@ def _call_guarded(fn):
     buf = io.StringIO()
     sys.stdout = sys.stderr = buf
     exc = None
-    signal.alarm(30)
+    signal.alarm(HANG_S)
     try:
         try:
             fn()
@@ -490,6 +494,10 @@ def _own_member(case):
     if own == "own-custom":
         m.update(where="custom", name="own-hist.json")
     return m
+
+
+_UNIT_FREE_KINDS = ("hang", "gc-exception", "gc-crash", "live-deleted", "live-unlocked", "corrupt-deleted",
+                    "corrupt-modified", "decoy-deleted", "survivor-damaged")
 
 
 def is_f1_shape(case, unit, L, model):
@@ -604,11 +612,13 @@ def run_json_case(case, tolerate=True, stats=None):
 
     # ---- judge
     def fail(kind, detail, finding=None):
+        # root-cause key: the safety invariants do not depend on the unit, the size arithmetic does
+        bucket = finding or (kind if kind in _UNIT_FREE_KINDS else "%s:%s" % (kind, unit))
         return (Failure(kind, case, "%s; resolved=%s" % (detail, json.dumps(common.jsonable(resolved))),
-                        finding=finding, bucket="%s:%s" % (finding or kind, unit)), nontrivial, labels, key)
+                        finding=finding, bucket=bucket), nontrivial, labels, key)
 
     if exc == "hang":
-        return fail("hang", "run_gc did not return within 30 s")
+        return fail("hang", "run_gc did not return within %d s" % HANG_S)
     if exc is not None:
         return fail("gc-exception", "run_gc raised %s" % exc)
     if texc:
@@ -811,10 +821,10 @@ def run_sqlite_case(case, tolerate=True, stats=None):
 
     def fail(kind, detail, finding=None):
         return (Failure(kind, case, "%s; resolved=%s" % (detail, json.dumps(resolved)), finding=finding,
-                        bucket="%s:sqlite" % (finding or kind)), nontrivial, labels, key)
+                        bucket=finding or "%s:sqlite" % kind), nontrivial, labels, key)
 
     if exc == "hang":
-        return fail("hang", "run_gc did not return within 30 s")
+        return fail("hang", "run_gc did not return within %d s" % HANG_S)
     if exc is not None:
         return fail("gc-exception", "run_gc raised %s" % exc)
     if texc:
